@@ -14,7 +14,11 @@ TO_BA = re.compile(r"KmerStorage>::to_bitarray$|KmerStorage for (usize|u64|u128)
 
 def base_of_local(p, loc):
     """initial value of a local that was later mutated: peel posts of its final value"""
-    v = p.raw.env.get(loc[1]) if loc[0] == "local" else None
+    v = None
+    if loc[0] == "local":
+        # a local of the function itself, or of the private helper the code was moved into (inlined frame)
+        env0 = p.raw.env if len(loc) == 2 else ((getattr(p.raw, "envs", None) or {}).get(loc[2]) or {})
+        v = env0.get(loc[1])
     if v is None:
         return None, []
     base, ids = an.peel_posts(v)
